@@ -2,6 +2,7 @@
   Line-protocol driver: one record per input line, one canonical answer line per record.
 -/
 import PasfmtModel.Model.Contracts
+import PasfmtModel.Model.Cursor
 
 namespace Pasfmt
 
@@ -85,10 +86,11 @@ def showChanged (before after : List Bytes) : String :=
 def bool01 (b : Bool) : String := if b then "1" else "0"
 
 /-- the `fmt` stream: whole pipeline with the parser and wrapper outputs taken from the record -/
-def handleFmt (cfgS inpS kindsS linesS postS changedS alnumS : String) : String :=
+def handleFmt (cfgS inpS kindsS linesS postS changedS alnumS cursorsS : String) : String :=
   match parseCfg cfgS, ofHex inpS, (parseList kindsS).mapM TokenType.ofRust, parseLines linesS,
-        (parseList postS).mapM parseFmt, parseChanged changedS, (parseList alnumS).mapM ofHex with
-  | some cfg, some inp, some kinds, some lines, some post, some changed, some alnum =>
+        (parseList postS).mapM parseFmt, parseChanged changedS, (parseList alnumS).mapM ofHex,
+        (parseList cursorsS).mapM String.toNat? with
+  | some cfg, some inp, some kinds, some lines, some post, some changed, some alnum, some cursors =>
     match lex inp with
     | none => "model-none"
     | some raw =>
@@ -103,13 +105,13 @@ def handleFmt (cfgS inpS kindsS linesS postS changedS alnumS : String) : String 
       let (marks, lines', ft1) := preWrap O raw
       let out := formatTokens cfg O raw
       let ft2 := O.wrap cfg lines' ft1
-      let wc := wrapFrameB ft1 ft2
+      let wc := wrapFrameB ft1 ft2 && wrapContentB cfg ft1 ft2
       let ndOk := contentsNdB raw
       let marksS := showList ((marks.zipIdx.filter (·.1)).map fun (_, i) => toString i)
       let pre := showList (ft1.map fun t => showFmt t.fmt)
       let prec := showChanged (raw.map (·.content)) (ft1.map (·.tok.content))
-      s!"marks={marksS}\tlv={showLines lines'}\tpre={pre}\tprec={prec}\tkr=1\twc={bool01 wc}\tnd={bool01 ndOk}\tout={toHex out}\tinfo_sr={bool01 (safeRunAllGo false ft2)}\tinfo_sn={bool01 (noSafetyNetGo false ft2)}\tinfo_cn={bool01 (canonAll ft2)}\tinfo_nn={bool01 (noNlAll ft2)}\tinfo_nt={bool01 (noTabAll ft2)}"
-  | _, _, _, _, _, _, _ => "bad-record"
+      s!"marks={marksS}\tlv={showLines lines'}\tpre={pre}\tprec={prec}\tkr=1\twc={bool01 wc}\tnd={bool01 ndOk}\tcur={showList ((trackCursors cfg.settings raw ft2 cursors).map fun o => match o with | some n => toString n | none => "underflow")}\tout={toHex out}\tinfo_sr={bool01 (safeRunAllGo false ft2)}\tinfo_sn={bool01 (noSafetyNetGo false ft2)}\tinfo_cn={bool01 (canonAll ft2)}\tinfo_nn={bool01 (noNlAll ft2)}\tinfo_nt={bool01 (noTabAll ft2)}"
+  | _, _, _, _, _, _, _, _ => "bad-record"
 
 def handleLine (line : String) : String :=
   match line.splitOn "\t" with
@@ -127,7 +129,7 @@ def handleLine (line : String) : String :=
       match lexWith true inp with
       | none => "model-none"
       | some toks => showRawToks toks
-  | ["fmt", cfg, inp, kinds, lines, post, changed, alnum] => handleFmt cfg inp kinds lines post changed alnum
+  | ["fmt", cfg, inp, kinds, lines, post, changed, alnum, cursors] => handleFmt cfg inp kinds lines post changed alnum cursors
   | _ => "bad-op"
 
 partial def loop (hin : IO.FS.Stream) (hout : IO.FS.Stream) : IO Unit := do
